@@ -3491,6 +3491,18 @@ fn validate_extension_declarations(
         }
 
         for sc in &decl.sectors_with_claims {
+            // A claim may be declared at most once per sector: its space is summed below.
+            let mut declared_claims = BTreeSet::new();
+            for id in sc.maintain_claims.iter().chain(sc.drop_claims.iter()) {
+                if !declared_claims.insert(*id) {
+                    return Err(actor_error!(
+                        illegal_argument,
+                        "claim {} declared more than once for sector {}",
+                        id,
+                        sc.sector_number
+                    ));
+                }
+            }
             let mut drop_claims = sc.drop_claims.clone();
             let mut all_claim_ids = sc.maintain_claims.clone();
             all_claim_ids.append(&mut drop_claims);
